@@ -102,6 +102,9 @@ type Scen struct {
 	clean        bool
 	prevPreimage string
 	steps        []stepRecord
+	// intercept (optional, set by a property's own driver): takes over a step before it runs,
+	// e.g. to run it with a crash injected; handled=false lets doStep proceed as usual
+	intercept func(sp stepSpec) (handled bool, err error, panicked bool)
 }
 
 func tableName(role string) string {
@@ -244,6 +247,11 @@ type stepSpec struct {
 
 // doStep runs one entry point on the real service and records the case.
 func (sc *Scen) doStep(sp stepSpec) (err error, panicked bool) {
+	if sc.intercept != nil {
+		if handled, ierr, ipan := sc.intercept(sp); handled {
+			return ierr, ipan
+		}
+	}
 	e := sc.env
 	pre := ""
 	if !sp.fresh {
